@@ -1046,7 +1046,11 @@ OCTET_STRING__convert_entrefs(void *sptr, const void *chunk_buf,
 				continue;
 			}
 			if(!len || pval[len-1] != 0x3b) goto want_more;
-			assert(val > 0);
+			if(val <= 0) {
+				/* "&#0;", "&#;", "&#x;": not a character. Copy verbatim. */
+				*buf++ = ch;
+				continue;
+			}
 			p += (pval - p) + len - 1; /* Advance past entref */
 
 			if(val < 0x80) {
